@@ -159,9 +159,9 @@ func (c c12Case) build() (base, full bq.Query, keys []bq.OrderKey) {
 		base.Proj = append(base.Proj, p)
 		base.GroupBy = []string{p.OutName()}
 		cnt := all[len(all)-1]
-		base.Proj = append(base.Proj, bq.Proj{Binding: cnt, Alias: "?n", Op: "count"})
+		base.Proj = append(base.Proj, bq.Proj{Binding: cnt, Alias: "?cnt", Op: "count"})
 		if len(all) > 1 {
-			base.Proj = append(base.Proj, bq.Proj{Binding: all[1], Alias: "?d", Op: "countd"})
+			base.Proj = append(base.Proj, bq.Proj{Binding: all[1], Alias: "?dst", Op: "countd"})
 		}
 	} else {
 		for i, b := range all {
